@@ -121,3 +121,70 @@ def shrink(case):
     for x in c09.shrink(case):
         if x.get('cut') is None or x.get('cuts') == 'all':
             yield x
+
+
+# ----------------------------------------------------------------------------- met formats: every prefix (python oracle)
+from harness import camxfmt as M, metcheck as MC  # noqa
+
+_gen_u = gen
+
+
+def gen(rng, n, tier):  # noqa: F811
+    out = _gen_u(rng, n, tier)
+    for i in range(n):
+        c = M.gen_met(rng, tier=tier, min_steps=2)
+        out.append(dict(kind='met-sweep-' + c['fmt'], content=c, write=False, sweep=True))
+    return out
+
+
+_impl_u = impl
+
+
+def impl(case):  # noqa: F811
+    if case['kind'].startswith('met-'):
+        return MC.run_met(case)
+    return _impl_u(case)
+
+
+_coq_u = coq_term
+
+
+def coq_term(case, obs):  # noqa: F811
+    if case['kind'].startswith('met-'):
+        return None
+    return _coq_u(case, obs)
+
+
+_py_u = py_check
+
+
+def py_check(case, obs):  # noqa: F811
+    if not case['kind'].startswith('met-'):
+        return _py_u(case, obs)
+    if 'raises' in obs:
+        return dict(s_ok=False, why='harness/impl raised ' + str(obs))
+    sw = obs['sweep']
+    c = case['content']
+    why = []
+    if sw['bad']:
+        why.append('prefix of %d of %d bytes opened with fabricated/shifted content (%s); %d such prefixes' % (
+            sw['bad'][0][0], sw['n'], sw['bad'][0][2], len(sw['bad'])))
+    if sw['timeouts']:
+        why.append('reader did not terminate on %d prefixes (0.5 s limit each; sweep stopped after 3)' % sw['timeouts'])
+    region = 0
+    if c['fmt'] == 'wind':
+        region = 15 if (sw['timeouts'] or sw['bad']) else 0
+    elif sw['bad']:
+        region = 14 if c['fmt'] in MET_PREFIX_DEFECT else 0
+    return dict(s_ok=not why, region=region, why='; '.join(why), timeouts=sw['timeouts'])
+
+
+MET_PREFIX_DEFECT = ('temperature',)   # see known_findings/C14.json
+
+_nt_u = nontrivial
+
+
+def nontrivial(case, obs):  # noqa: F811
+    if case['kind'].startswith('met-'):
+        return len(obs.get('sweep', {}).get('accepted', [])) > 0
+    return _nt_u(case, obs)
